@@ -18,27 +18,34 @@ from pv.core import Sub, Violation, call, check, short
 from pv.codec import D0
 
 ASSUMPTIONS = [
-    'indices are strictly increasing, duplicate-free daily DatetimeIndex subsets of a 12-day axis (incl. empty, identical, disjoint, partially overlapping)',
-    'cells: floats from {NaN, 0.0, -0.0, -1.5, 1.0, 2.0, 2.5} or int64 from [-3, 6] (all sums/products are exact dyadic numbers, so + - * are compared exactly; / pow mean with rel/abs 1e-12)',
-    'frames have 2-3 distinct columns out of {a,b,c,d}; single-column frames ("pseudo-series", whose column name is ignored by design) are not generated',
+    'indices are strictly increasing, duplicate-free daily DatetimeIndex objects (timeseries; pandas cannot reindex duplicate labels): short operands are subsets of 12 days '
+    '(empty, identical, shifted, disjoint, windows, random masks, same length/first/last with another interior), a quarter of the cases has long operands of 64/65/100/128/300 '
+    'stamps with 0-4 stamps left out and a cell pattern of period 1-5',
+    'cells: floats from {NaN, 0.0, -0.0, -1.5, 1.0, 2.0, 2.5} (a quarter of the cases adds 0.1 and 1e16) or int64 from [-3, 6]; + - * min max comparisons are compared exactly '
+    '(the oracle performs the same IEEE operations in the same left-to-right order), / pow mean with rel/abs 1e-12',
+    'frames have 2-3 distinct columns out of {a,b,c,d} or {a,ab,b,abc}; single-column frames ("pseudo-series", whose column name is ignored by design) are not generated',
     'every case holds at least one timeseries (all-scalar calls are plain arithmetic)',
     'result index / columns are compared as duplicate-free sets (the statement does not fix an order)',
     'frames sharing no column under columns="ij": only "the result has no cells" is asserted (the library returns an empty Series, the docstring of presync pins len == 0)',
-    'an intermediate result of a list reduction never has fewer than two columns (under columns="ij" the frames of one reduced list share two columns by construction): '
-    'a one-column intermediate is a "pseudo-series" for the library and a column-less one an empty Series, see KNOWN["narrow_intermediate"] (reported as a finding)',
+    'lists whose intermediate result has fewer than two columns under columns="ij" are generated but not judged: KNOWN["narrow_intermediate"] (registered known finding) takes them out '
+    'before the oracle and they are counted as excluded_known',
     'a scalar zero divisor may yield a NaN scalar (for frames: one NaN per column) instead of an all-NaN timeseries (div_(ts, 0) returns nan by design)',
     'pow_: exponents are 0..3 / {0.0, 0.5, 1.0, 2.0, 3.0} / NaN (no negative exponents: 0**-1 is +inf by IEEE, int**-1 raises in numpy); oracle = C pow (math.pow; domain error -> NaN)',
     'pow_ and the comparisons have no neutral element: under columns="oj" the cells of a column present on one side only are not asserted (column set and the other cells are)',
     'min_/max_: NaN-propagating (documented as reduced np.minimum/np.maximum); frames of one case have the same column set (possibly in a different order)',
     'df_sum/df_mean/df_count are called with their default policies (join="oj", columns="oj") on homogeneous collections: all Series or all multi-column frames',
     'commutativity is asserted for the binary form op(a, b) vs op(b, a) of add_ and mul_',
+    'policies are spelled ij/oj or inner/outer; the operands must be unchanged after the call (otherwise re-evaluating the same expression gives another result); '
+    'whether the result shares memory with an operand is not asserted (not part of the statement)',
 ]
 
 NAN = float('nan')
-AXIS_N = 12
+SHORT_N = 12                      # short operands live on the first 12 days of the axis
+AXIS_N = 340                      # long operands: 64 / 65 / 100 / 128 / 300 stamps starting at day 0..17
+LONG_NS = [64, 65, 100, 128, 300]
 AXIS = [datetime.datetime.fromordinal(D0) + datetime.timedelta(days=i) for i in range(AXIS_N)]
 POS = {t: i for i, t in enumerate(AXIS)}
-COLPOOL = ['a', 'b', 'c', 'd']
+COLPOOLS = [['a', 'b', 'c', 'd'], ['a', 'ab', 'b', 'abc']]     # the second pool: names that are prefixes of one another
 
 
 class _Any(object):
@@ -50,15 +57,45 @@ class _Any(object):
 ANY = _Any()
 
 # ----------------------------------------------------------------------------- generators (plain data)
+# A timeseries operand is either explicit  {k, idx: [axis positions], vals: [...], dt, cols}
+# or compact ("long")                      {k, long: {start, n, holes: [offsets left out], pat: [cells, cycled by axis position]}, dt, cols}
 
 _fcell = st.sampled_from(['nan', 0.0, 0.0, -1.5, 1.0, 2.0, 2.5, 'nan', 1.0, -0.0])
+_fcell_x = st.sampled_from(['nan', 0.0, -1.5, 1.0, 2.5, 0.1, 0.1, 1e16, 1.0, -0.0])    # with values that are not exact in float32 / absorb small addends
 _icell = st.integers(-3, 6).map(lambda i: 0 if i == -3 else i)   # 0 twice as likely
 _scalar = st.sampled_from([0, 0.0, 1, 2, -1, 2.5, -1.5, 'nan', 3])
+_scalar_x = st.sampled_from([0, 0.1, 1, 2, -1, 2.5, 1e16, 'nan', 3])
 _exp_f = st.sampled_from([0.0, 0.5, 1.0, 2.0, 3.0, 'nan'])
 _exp_i = st.integers(0, 3)
+_policy = st.sampled_from(['ij', 'oj', 'ij', 'oj', 'inner', 'outer'])
+
+_IDX_MODES = ['mask', 'mask', 'mask', 'mask', 'window', 'window', 'shift', 'shift', 'shift', 'shift', 'same', 'disjoint', 'empty', 'fp', 'fp']
 
 
-_IDX_MODES = ['mask', 'mask', 'mask', 'mask', 'window', 'window', 'shift', 'shift', 'shift', 'shift', 'same', 'disjoint', 'empty']
+def _expand(o):
+    """compact long operand -> explicit operand"""
+    if 'long' not in o:
+        return o
+    L = o['long']
+    holes = set(L['holes'])
+    idx = [L['start'] + i for i in range(L['n']) if i not in holes]
+    pat = L['pat']
+    r = {k: v for k, v in o.items() if k != 'long'}
+    r['idx'] = idx
+    r['vals'] = [pat[t % len(pat)] for t in idx]
+    r['is_long'] = True
+    return r
+
+
+def _norm(spec):
+    r = dict(spec)
+    for k in ('lhs', 'rhs'):
+        if r.get(k) is not None:
+            r[k] = [_expand(o) for o in r[k]]
+    for k in ('a', 'b'):
+        if k in r:
+            r[k] = _expand(r[k])
+    return r
 
 
 def _index(draw, first):
@@ -69,56 +106,98 @@ def _index(draw, first):
         if mode == 'same':
             return list(first)
         if mode == 'disjoint':
-            rest = [i for i in range(AXIS_N) if i not in first]
+            rest = [i for i in range(SHORT_N) if i not in first]
             m = draw(st.integers(1, 2 ** len(rest) - 1)) if rest else 0
             return [i for j, i in enumerate(rest) if m >> j & 1]
         if mode == 'shift' and first:
             # a shifted copy of the first index: overlaps partially
             sh = draw(st.sampled_from([-2, -1, 1, 2]))
-            return sorted(set(i + sh for i in first if 0 <= i + sh < AXIS_N))
+            return sorted(set(i + sh for i in first if 0 <= i + sh < SHORT_N))
+        if mode == 'fp' and len(first) >= 3:
+            # the "fingerprint" of the first index (length, first and last stamp) with a different interior
+            slots = list(range(first[0] + 1, first[-1]))
+            k = len(first) - 2
+            if len(slots) > k:
+                inner = sorted(draw(st.permutations(slots))[:k])
+                if inner == list(first[1:-1]):
+                    inner = sorted(inner[1:] + [[x for x in slots if x not in inner][0]])
+                return [first[0]] + inner + [first[-1]]
     if mode == 'window':
-        start = draw(st.integers(0, AXIS_N - 2))
+        start = draw(st.integers(0, SHORT_N - 2))
         n = draw(st.integers(2, 7))
-        return list(range(start, min(AXIS_N, start + n)))
-    m = draw(st.integers(1, 2 ** AXIS_N - 1))
-    return [i for i in range(AXIS_N) if m >> i & 1]
+        return list(range(start, min(SHORT_N, start + n)))
+    m = draw(st.integers(1, 2 ** SHORT_N - 1))
+    return [i for i in range(SHORT_N) if m >> i & 1]
 
 
-def _ts(draw, kind, first, cols=None, cellmode=None):
-    """kind 's' or 'f'; cellmode 'f' floats, 'i' ints, 'e' float exponents, 'ei' int exponents"""
-    idx = _index(draw, first)
+def _long_index(draw, first):
+    """first: the `long` dict of the first long operand of the case, or None"""
+    mode = draw(st.sampled_from(['other', 'other', 'same', 'fp', 'fp', 'shift'])) if first else 'other'
+    if mode == 'fp' and not first['holes']:
+        mode = 'same'
+    if mode == 'same':
+        return dict(start=first['start'], n=first['n'], holes=list(first['holes']))
+    if mode == 'shift':
+        return dict(start=first['start'] + draw(st.sampled_from([1, 2, 7])), n=first['n'], holes=list(first['holes']))
+    if mode == 'fp':
+        k = len(first['holes'])
+        holes = sorted(draw(st.sets(st.integers(1, first['n'] - 2), min_size=k, max_size=k)))
+        if holes == list(first['holes']):
+            holes[0] = [h for h in range(1, first['n'] - 1) if h not in holes][0]
+            holes = sorted(holes)
+        return dict(start=first['start'], n=first['n'], holes=holes)
+    n = draw(st.sampled_from(LONG_NS))
+    return dict(start=draw(st.sampled_from([0, 0, 3, 10])), n=n,
+                holes=sorted(draw(st.sets(st.integers(1, n - 2), min_size=draw(st.sampled_from([0, 1, 1])), max_size=4))))
+
+
+def _first_ts(ops):
+    for o in ops:
+        if o['k'] != 'c':
+            return o
+    return None
+
+
+def _first_long(ops):
+    for o in ops:
+        if 'long' in o:
+            return o['long']
+    return None
+
+
+def _ts(draw, kind, prev, ctx, cols=None, cellmode=None):
+    """kind 's' or 'f'; prev: operands drawn so far; cellmode 'f' floats, 'i' ints, 'e' float exponents, 'ei' int exponents"""
     cm = cellmode or draw(st.sampled_from(['f', 'f', 'f', 'i']))
-    cell = {'f': _fcell, 'i': _icell, 'e': _exp_f, 'ei': _exp_i}[cm]
+    cell = {'f': _fcell_x if ctx['inexact'] else _fcell, 'i': _icell, 'e': _exp_f, 'ei': _exp_i}[cm]
     dt = 'i' if cm in ('i', 'ei') else 'f'
+    if ctx['big'] and draw(st.integers(0, 2)) > 0:
+        L = _long_index(draw, _first_long(prev))
+        npat = draw(st.integers(1, 5))          # few distinct values, many ties
+        if kind == 's':
+            L['pat'] = [draw(cell) for _ in range(npat)]
+            return dict(k='s', dt=dt, long=L)
+        L['pat'] = [[draw(cell) for _ in cols] for _ in range(npat)]
+        return dict(k='f', dt=dt, cols=list(cols), long=L)
+    f = _first_ts(prev)
+    first = None if f is None else [i for i in _expand(f)['idx'] if i < SHORT_N]
+    idx = _index(draw, first)
     if kind == 's':
         return dict(k='s', idx=idx, dt=dt, vals=[draw(cell) for _ in idx])
     return dict(k='f', idx=idx, dt=dt, cols=list(cols), vals=[[draw(cell) for _ in cols] for _ in idx])
 
 
-def _cols(draw, must=None):
-    """2-3 column names in drawn order; `must` = names every frame of the list has to hold"""
+def _ctx(draw):
+    return dict(pool=draw(st.sampled_from([COLPOOLS[0], COLPOOLS[0], COLPOOLS[1]])), big=draw(st.integers(0, 3)) == 0, inexact=draw(st.integers(0, 3)) == 0)
+
+
+def _cols(draw, ctx):
+    """2-3 column names in drawn order"""
     n = draw(st.integers(2, 3))
-    perm = list(draw(st.permutations(COLPOOL)))
-    if must:
-        cols = list(must) + [c for c in perm if c not in must][:n - len(must)]
-        return list(draw(st.permutations(cols)))
-    return perm[:n]
+    return list(draw(st.permutations(ctx['pool'])))[:n]
 
 
-def _common(draw):
-    """two columns shared by every frame of one reduced list (so that no intermediate result has fewer than two columns)"""
-    return sorted(draw(st.permutations(COLPOOL))[:2])
-
-
-def _first_idx(ops):
-    for o in ops:
-        if o['k'] != 'c':
-            return o['idx']
-    return None
-
-
-def _operands(draw, n, allow_scalar=True, allow_frame=True, common=None, cols_fixed=None, pre=(), profile='mixed'):
-    """n operands; `common`: columns every frame must have; cols_fixed: the column set of every frame (order free)"""
+def _operands(draw, n, ctx, allow_scalar=True, allow_frame=True, cols_fixed=None, pre=(), profile='mixed'):
+    """n operands; cols_fixed: the column set of every frame (order free)"""
     ops = []
     for _ in range(n):
         if profile == 'frames':
@@ -126,65 +205,59 @@ def _operands(draw, n, allow_scalar=True, allow_frame=True, common=None, cols_fi
         else:
             kinds = ['s', 's'] + (['f', 'f'] if allow_frame else []) + (['c'] if allow_scalar else [])
         k = draw(st.sampled_from(kinds))
-        first = _first_idx(list(pre) + ops)
+        prev = list(pre) + ops
         if k == 'c':
-            ops.append(dict(k='c', v=draw(_scalar)))
+            ops.append(dict(k='c', v=draw(_scalar_x if ctx['inexact'] else _scalar)))
         elif k == 's':
-            ops.append(_ts(draw, 's', first))
+            ops.append(_ts(draw, 's', prev, ctx))
         else:
             if cols_fixed is not None:
                 cols = list(draw(st.permutations(cols_fixed)))
             else:
-                cols = _cols(draw, common)
-                prev = [o for o in list(pre) + ops if o['k'] == 'f']
-                rest = [c for c in COLPOOL if prev and c not in prev[0]['cols']]
-                if not common and len(rest) >= 2 and draw(st.integers(0, 5)) == 0:
-                    cols = rest          # shares no column with the first frame
-            ops.append(_ts(draw, 'f', first, cols))
+                cols = _cols(draw, ctx)
+                pf = [o for o in prev if o['k'] == 'f']
+                how = draw(st.integers(0, 7))
+                if pf and how == 0:
+                    rest = [c for c in ctx['pool'] if c not in pf[0]['cols']]
+                    if len(rest) >= 2:
+                        cols = rest                                            # shares no column with the first frame
+                elif pf and how == 1:
+                    cols = list(draw(st.permutations(pf[0]['cols'])))          # same column set, drawn order
+            ops.append(_ts(draw, 'f', prev, ctx, cols))
     return ops
 
 
-def _ensure_ts(draw, ops, allow_frame=True, cols=None):
+def _ensure_ts(draw, ops, ctx, allow_frame=True, cols=None):
     if all(o['k'] == 'c' for o in ops):
         i = draw(st.integers(0, len(ops) - 1))
         if allow_frame and draw(st.booleans()):
-            ops[i] = _ts(draw, 'f', None, cols or _cols(draw))
+            ops[i] = _ts(draw, 'f', [], ctx, cols or _cols(draw, ctx))
         else:
-            ops[i] = _ts(draw, 's', None)
+            ops[i] = _ts(draw, 's', [], ctx)
     return ops
 
 
 @st.composite
 def _arith_case(draw):
     op = draw(st.sampled_from(['add_', 'sub_', 'mul_', 'div_']))
-    join = draw(st.sampled_from(['ij', 'oj']))
-    columns = draw(st.sampled_from(['ij', 'oj']))
+    join = draw(_policy)
+    columns = draw(_policy)
+    ctx = _ctx(draw)
     form = draw(st.sampled_from(['bin', 'bin', 'list', 'list', 'split']))
     if form == 'list' and op in ('sub_', 'div_'):
         form = 'split'
     profile = draw(st.sampled_from(['mixed', 'mixed', 'frames']))
     if form == 'bin':
-        ops = _ensure_ts(draw, _operands(draw, 2, profile=profile))
+        ops = _ensure_ts(draw, _operands(draw, 2, ctx, profile=profile), ctx)
         return dict(op=op, join=join, columns=columns, form=form, lhs=[ops[0]], rhs=[ops[1]], lhs_list=False, rhs_list=False)
     n = draw(st.integers(2, 4))
-    # under columns='ij' the frames of one folded list share two columns, so that no intermediate result has < 2 columns
+    # the column sets of the frames of one reduced list are free: lists whose intermediate result has fewer than two columns
+    # under columns='ij' are generated and taken out by KNOWN['narrow_intermediate'] (counted as excluded_known)
+    ops = _ensure_ts(draw, _operands(draw, n, ctx, profile=profile), ctx)
     if form == 'list':
-        common = _common(draw) if columns == 'ij' and n > 2 else None
-        ops = _ensure_ts(draw, _operands(draw, n, common=common, profile=profile), cols=None if common is None else _cols(draw, common))
         return dict(op=op, join=join, columns=columns, form=form, lhs=ops, rhs=None, lhs_list=True, rhs_list=False)
     nl = draw(st.integers(1, n - 1))
-    if op in ('add_', 'mul_'):
-        # one fold over lhs + rhs
-        common = _common(draw) if columns == 'ij' and n > 2 else None
-        ops = _ensure_ts(draw, _operands(draw, n, common=common, profile=profile), cols=None if common is None else _cols(draw, common))
-        lhs, rhs = ops[:nl], ops[nl:]
-    else:
-        cl = _common(draw) if columns == 'ij' and nl > 1 else None
-        cr = _common(draw) if columns == 'ij' and n - nl > 1 else None
-        lhs = _operands(draw, nl, common=cl, profile=profile)
-        rhs = _operands(draw, n - nl, common=cr, pre=lhs, profile=profile)
-        both = _ensure_ts(draw, lhs + rhs, allow_frame=False)
-        lhs, rhs = both[:nl], both[nl:]
+    lhs, rhs = ops[:nl], ops[nl:]
     lhs_list = True if len(lhs) > 1 else draw(st.booleans())
     rhs_list = True if len(rhs) > 1 else draw(st.booleans())
     return dict(op=op, join=join, columns=columns, form=form, lhs=lhs, rhs=rhs, lhs_list=lhs_list, rhs_list=rhs_list)
@@ -193,34 +266,36 @@ def _arith_case(draw):
 @st.composite
 def _cmp_case(draw):
     op = draw(st.sampled_from(['pow_', 'pow_', 'gt_', 'ge_', 'lt_', 'le_']))
-    join = draw(st.sampled_from(['ij', 'oj']))
-    columns = draw(st.sampled_from(['ij', 'oj']))
+    join = draw(_policy)
+    columns = draw(_policy)
+    ctx = _ctx(draw)
     if op != 'pow_':
-        ops = _ensure_ts(draw, _operands(draw, 2, profile=draw(st.sampled_from(['mixed', 'mixed', 'frames']))))
+        ops = _ensure_ts(draw, _operands(draw, 2, ctx, profile=draw(st.sampled_from(['mixed', 'mixed', 'frames']))), ctx)
         return dict(op=op, join=join, columns=columns, a=ops[0], b=ops[1])
-    a = _operands(draw, 1)[0]
+    a = _operands(draw, 1, ctx)[0]
     kb = draw(st.sampled_from(['c', 's', 's', 'f']))
     cm = draw(st.sampled_from(['e', 'ei']))
     if kb == 'c':
         b = dict(k='c', v=draw(_exp_f if cm == 'e' else _exp_i))
     elif kb == 's':
-        b = _ts(draw, 's', _first_idx([a]), cellmode=cm)
+        b = _ts(draw, 's', [a], ctx, cellmode=cm)
     else:
-        b = _ts(draw, 'f', _first_idx([a]), _cols(draw), cellmode=cm)
+        b = _ts(draw, 'f', [a], ctx, _cols(draw, ctx), cellmode=cm)
     if a['k'] == 'c' and b['k'] == 'c':
-        a = _ts(draw, 's', None)
+        a = _ts(draw, 's', [], ctx)
     return dict(op=op, join=join, columns=columns, a=a, b=b)
 
 
 @st.composite
 def _minmax_case(draw):
     op = draw(st.sampled_from(['min_', 'max_']))
-    join = draw(st.sampled_from(['ij', 'oj']))
-    columns = draw(st.sampled_from(['ij', 'oj']))
+    join = draw(_policy)
+    columns = draw(_policy)
+    ctx = _ctx(draw)
     form = draw(st.sampled_from(['bin', 'list', 'split']))
     n = 2 if form == 'bin' else draw(st.integers(2, 4))
-    cols = _cols(draw)
-    ops = _ensure_ts(draw, _operands(draw, n, cols_fixed=cols), cols=cols)
+    cols = _cols(draw, ctx)
+    ops = _ensure_ts(draw, _operands(draw, n, ctx, cols_fixed=cols), ctx, cols=cols)
     if form == 'bin':
         return dict(op=op, join=join, columns=columns, form=form, lhs=[ops[0]], rhs=[ops[1]], lhs_list=False, rhs_list=False)
     if form == 'list':
@@ -235,11 +310,16 @@ def _minmax_case(draw):
 def _agg_case(draw):
     op = draw(st.sampled_from(['df_sum', 'df_mean', 'df_count']))
     frames = draw(st.booleans())
+    ctx = _ctx(draw)
     n = draw(st.integers(2, 4))
     ops = []
     for _ in range(n):
-        first = _first_idx(ops)
-        ops.append(_ts(draw, 'f', first, _cols(draw)) if frames else _ts(draw, 's', first))
+        if frames:
+            pf = [o for o in ops if o['k'] == 'f']
+            cols = list(draw(st.permutations(pf[0]['cols']))) if pf and draw(st.integers(0, 5)) == 0 else _cols(draw, ctx)
+            ops.append(_ts(draw, 'f', ops, ctx, cols))
+        else:
+            ops.append(_ts(draw, 's', ops, ctx))
     form = draw(st.sampled_from(['list', 'list', 'split']))
     if form == 'list':
         return dict(op=op, form=form, lhs=ops, rhs=None, lhs_list=True, rhs_list=False)
@@ -284,6 +364,16 @@ def _args(spec):
     return (a, b), lhs + rhs
 
 
+def _snapshot(built):
+    return [_canon(x) for x in built]
+
+
+def _check_unchanged(what, built, before):
+    """re-evaluating the same expression must see the same operands: the call may not write into the caller's objects"""
+    for i, (x, b) in enumerate(zip(built, before)):
+        check(_canon(x) == b, '%s changed its operand number %s in place: it was %s and is now %s', what, i, b, _canon(x))
+
+
 # ----------------------------------------------------------------------------- reference model
 
 def _isnan(x):
@@ -315,7 +405,7 @@ def m_bin(x, y, fn, join, columns, neutral, flags=None):
     idxs = [set(o[-1]) for o in (x, y) if o[0] != 'c']
     index = idxs[0]
     for s in idxs[1:]:
-        index = (index & s) if join == 'ij' else (index | s)
+        index = (index & s) if join[0] == 'i' else (index | s)
     frames = [o for o in (x, y) if o[0] == 'f']
 
     def cell(t, c):
@@ -327,7 +417,7 @@ def m_bin(x, y, fn, join, columns, neutral, flags=None):
         return ('s', {t: cell(t, None) for t in sorted(index)})
     cols = set(frames[0][1])
     for f in frames[1:]:
-        cols = (cols & set(f[1])) if columns == 'ij' else (cols | set(f[1]))
+        cols = (cols & set(f[1])) if columns[0] == 'i' else (cols | set(f[1]))
     cols = sorted(cols)
     return ('f', cols, {t: {c: cell(t, c) for c in cols} for t in sorted(index)})
 
@@ -480,10 +570,15 @@ def _canon(res):
 def _desc_operand(o):
     if o['k'] == 'c':
         return repr(_cellv(o['v']))
-    days = [AXIS[i].strftime('%d') for i in o['idx']]
+    if len(o['idx']) > 14:
+        days = '%s..%s (%i stamps)' % (AXIS[o['idx'][0]].strftime('%m-%d'), AXIS[o['idx'][-1]].strftime('%m-%d'), len(o['idx']))
+        vals = '%s...' % (o['vals'][:6],)
+    else:
+        days = ','.join(AXIS[i].strftime('%d') for i in o['idx'])
+        vals = '%s' % (o['vals'],)
     if o['k'] == 's':
-        return 'Series(%s @%s)' % (o['vals'], ','.join(days))
-    return 'Frame(%s %s @%s)' % (o['cols'], o['vals'], ','.join(days))
+        return 'Series(%s @%s)' % (vals, days)
+    return 'Frame(%s %s @%s)' % (o['cols'], vals, days)
 
 
 def _desc(spec, kw):
@@ -497,29 +592,38 @@ def _desc(spec, kw):
     return short('%s(%s%s)' % (spec['op'], a, ', ' + k if k else ''), 700)
 
 
-def _classes(all_ops, extra):
+def _classes(all_ops, extra, policies=()):
     """class labels + the non-trivial rule: partially overlapping indices with a NaN or 0 in the overlap, or differing column sets"""
     ts = [o for o in all_ops if o['k'] != 'c']
     cls = list(extra)
     cls.append('n=%i' % len(all_ops))
     partial_nz = False
-    partial = disjoint = identical = False
+    partial = disjoint = identical = fingerprint = False
+    zero_at = []
+    for o in ts:
+        z = set()
+        for p, t in enumerate(o['idx']):
+            row = o['vals'][p] if o['k'] == 'f' else [o['vals'][p]]
+            if any(v == 'nan' or v == 0 for v in row):
+                z.add(t)
+        zero_at.append(z)
     for i in range(len(ts)):
         for j in range(i + 1, len(ts)):
-            a, b = set(ts[i]['idx']), set(ts[j]['idx'])
-            if a and b and not (a & b):
+            ia, ib = ts[i]['idx'], ts[j]['idx']
+            a, b = set(ia), set(ib)
+            ab = a & b
+            if a and b and not ab:
                 disjoint = True
             if a and a == b:
                 identical = True
-            if (a & b) and a != b:
+            if len(ia) >= 3 and len(ia) == len(ib) and ia[0] == ib[0] and ia[-1] == ib[-1] and a != b:
+                fingerprint = True
+            if ab and a != b:
                 partial = True
-                for o in ts:
-                    for p, t in enumerate(o['idx']):
-                        if t in (a & b):
-                            row = o['vals'][p] if o['k'] == 'f' else [o['vals'][p]]
-                            if any(v == 'nan' or v == 0 for v in row):
-                                partial_nz = True
-    colsets = set(frozenset(o['cols']) for o in ts if o['k'] == 'f')
+                if any(z & ab for z in zero_at):
+                    partial_nz = True
+    frames = [o for o in ts if o['k'] == 'f']
+    colsets = set(frozenset(o['cols']) for o in frames)
     diffcols = len(colsets) > 1
     if partial:
         cls.append('partial_overlap')
@@ -529,16 +633,43 @@ def _classes(all_ops, extra):
         cls.append('disjoint_indices')
     if identical:
         cls.append('identical_indices')
+    if fingerprint:
+        cls.append('fingerprint_indices')       # same length, first and last stamp, different interior
     if any(not o['idx'] for o in ts):
         cls.append('empty_operand')
+    if len(all_ops) >= 3 and any(o['k'] != 'c' and not o['idx'] for o in all_ops[1:-1]):
+        cls.append('empty_in_the_middle')
     if diffcols:
         cls.append('differing_columns')
+    if any(set(x['cols']) == set(y['cols']) and list(x['cols']) != list(y['cols']) for i, x in enumerate(frames) for y in frames[i + 1:]):
+        cls.append('same_columns_other_order')
+    names = sorted(set(c for o in frames for c in o['cols']))
+    if any(x != y and y.startswith(x) for x in names for y in names):
+        cls.append('prefix_column_names')
     if any(o['k'] == 'c' for o in all_ops):
         cls.append('scalar')
-    if any(o['k'] == 'f' for o in ts) and any(o['k'] == 's' for o in ts):
+    if any(o['k'] == 'c' and o['v'] == 0 for o in all_ops):
+        cls.append('falsy_scalar')
+    if frames and any(o['k'] == 's' for o in ts):
         cls.append('series_with_frame')
     if any(o['dt'] == 'i' for o in ts):
         cls.append('int_dtype')
+    lens = [len(o['idx']) for o in ts]
+    if any(n >= 64 for n in lens):
+        cls.append('long')
+        if any(0 < n and 8 * n <= max(lens) for n in lens):
+            cls.append('long_with_short')
+        if len([n for n in lens if n >= 64]) >= 2:
+            cls.append('long_with_long')
+
+    def cells(o):
+        if o['k'] == 'c':
+            return [o['v']]
+        return [v for row in o['vals'] for v in row] if o['k'] == 'f' else o['vals']
+    if any(v in (0.1, 1e16) for o in all_ops for v in cells(o)):
+        cls.append('inexact_values')
+    if any(len(p) > 2 for p in policies):
+        cls.append('spelled_out_policy')
     return bool(partial_nz or diffcols), cls
 
 
@@ -546,12 +677,15 @@ def _classes(all_ops, extra):
 
 def run_arith(spec):
     import pyg_base
+    spec = _norm(spec)
     op, join, columns = spec['op'], spec['join'], spec['columns']
     f = getattr(pyg_base, op)
     kw = dict(join=join, columns=columns)
     args, built = _args(spec)
+    before = _snapshot(built)
     what = _desc(spec, kw)
     res = call(what, f, *args, **kw)
+    _check_unchanged(what, built, before)
     # ---- reference
     lm = [_model(o) for o in spec['lhs']]
     rm = [] if spec['rhs'] is None else [_model(o) for o in spec['rhs']]
@@ -570,16 +704,17 @@ def run_arith(spec):
         zero_scalar_div = op == 'div_' and B[0] == 'c' and B[1] == 0
     compare(res, exp, what, tol=1e-12 if op == 'div_' else None, no_inf=(op == 'div_'), nan_scalar_ok=zero_scalar_div)
     # ---- commutativity of the binary form
-    extra = ['op=' + op, 'form=' + spec['form'], 'join=' + join, 'columns=' + columns]
+    extra = ['op=' + op, 'form=' + spec['form'], 'join=' + join[0] + 'j', 'columns=' + columns[0] + 'j']
     if op in ('add_', 'mul_') and spec['form'] == 'bin':
         res2 = call('swapped operands of ' + what, f, args[1], args[0], **kw)
         c1, c2 = _canon(res), _canon(res2)
-        check(c1 == c2, '%s is not commutative: %s but with the operands swapped %s', what, c1, c2)
+        check(c1 == c2, '%s is not commutative: %s but with the operands swapped %s', what, short(c1, 400), short(c2, 400))
+        _check_unchanged(what, built, before)
         extra.append('commutativity_checked')
     all_ops = spec['lhs'] + (spec['rhs'] or [])
-    nt, cls = _classes(all_ops, extra)
+    nt, cls = _classes(all_ops, extra, (join, columns))
     if flags.narrow_intermediate:
-        cls.append('narrow_intermediate')      # never generated (see KNOWN); reachable through a hand-written replay only
+        cls.append('narrow_intermediate')      # generated inputs of this class are taken out by KNOWN before they get here
     if op == 'div_':
         zero = _has_zero_divisor(B)
         if zero:
@@ -588,7 +723,7 @@ def run_arith(spec):
             cls.append('zero_scalar_divisor')
     if exp[0] == 'f' and not exp[1]:
         cls.append('no_common_column')
-    if columns == 'oj' and 'differing_columns' in cls:
+    if columns[0] == 'o' and 'differing_columns' in cls:
         cls.append('neutral_element_used')
     return dict(nt=nt, cls=cls)
 
@@ -605,17 +740,20 @@ def _has_zero_divisor(B):
 
 def run_cmp_pow(spec):
     import pyg_base
+    spec = _norm(spec)
     op, join, columns = spec['op'], spec['join'], spec['columns']
     f = getattr(pyg_base, op)
     kw = dict(join=join, columns=columns)
     s2 = dict(op=op, lhs=[spec['a']], rhs=[spec['b']], lhs_list=False, rhs_list=False)
     args, built = _args(s2)
+    before = _snapshot(built)
     what = _desc(s2, kw)
     res = call(what, f, *args, **kw)
+    _check_unchanged(what, built, before)
     fn, neutral = FN[op]
     exp = m_bin(_model(spec['a']), _model(spec['b']), fn, join, columns, neutral)
     compare(res, exp, what, tol=1e-12 if op == 'pow_' else None)
-    nt, cls = _classes([spec['a'], spec['b']], ['op=' + op, 'join=' + join, 'columns=' + columns])
+    nt, cls = _classes([spec['a'], spec['b']], ['op=' + op, 'join=' + join[0] + 'j', 'columns=' + columns[0] + 'j'], (join, columns))
     if op != 'pow_':
         outcomes = set()
         for v in (exp[1].values() if exp[0] == 's' else [x for row in exp[2].values() for x in row.values()] if exp[0] == 'f' else []):
@@ -630,18 +768,21 @@ def run_cmp_pow(spec):
 
 def run_minmax(spec):
     import pyg_base
+    spec = _norm(spec)
     op, join, columns = spec['op'], spec['join'], spec['columns']
     f = getattr(pyg_base, op)
     kw = dict(join=join, columns=columns)
     args, built = _args(spec)
+    before = _snapshot(built)
     what = _desc(spec, kw)
     res = call(what, f, *args, **kw)
+    _check_unchanged(what, built, before)
     ms = [_model(o) for o in spec['lhs'] + (spec['rhs'] or [])]
     fn, neutral = FN[op]
     # min_/max_ align all operands at once: index = intersection/union over all timeseries, then fold
     exp = m_fold(ms, fn, join, columns, neutral)
     compare(res, exp, what)
-    nt, cls = _classes(spec['lhs'] + (spec['rhs'] or []), ['op=' + op, 'form=' + spec['form'], 'join=' + join, 'columns=' + columns])
+    nt, cls = _classes(spec['lhs'] + (spec['rhs'] or []), ['op=' + op, 'form=' + spec['form'], 'join=' + join[0] + 'j', 'columns=' + columns[0] + 'j'], (join, columns))
     return dict(nt=nt, cls=cls)
 
 
@@ -649,11 +790,14 @@ def run_minmax(spec):
 
 def run_agg(spec):
     import pyg_base
+    spec = _norm(spec)
     op = spec['op']
     f = getattr(pyg_base, op)
     args, built = _args(spec)
+    before = _snapshot(built)
     what = _desc(spec, {})
     res = call(what, f, *args)
+    _check_unchanged(what, built, before)
     ops = spec['lhs'] + (spec['rhs'] or [])
     ms = [_model(o) for o in ops]
     index = sorted(set(t for m in ms for t in m[-1]))
@@ -690,7 +834,6 @@ def run_agg(spec):
         cls.append('cell_without_data')
     if any(not _isnan(v) and not (op == 'df_count' and v == 0) for v in cells):
         cls.append('cell_with_data')
-    # a cell where some operands are NaN / absent and others have data: the NaN-skipping itself
     return dict(nt=nt, cls=cls)
 
 
@@ -702,7 +845,7 @@ def _narrow_intermediate(spec):
     the library then treats the one-column intermediate as a "pseudo-series" (column name ignored, broadcast over the columns of
     the next operand) and a column-less intermediate as an empty Series, so the result depends on the order of the operands.
     """
-    if spec.get('columns') != 'ij' or 'lhs' not in spec:
+    if (spec.get('columns') or 'x')[0] != 'i' or 'lhs' not in spec:
         return False
 
     def fold_cols(ops):
@@ -723,24 +866,31 @@ def _narrow_intermediate(spec):
 KNOWN = {'narrow_intermediate': _narrow_intermediate}
 
 
+_COMMON_RULE = ('operands: float/int Series and 2-3 column frames (names over {a,b,c,d} or {a,ab,b,abc}, free column order), scalars incl. 0 and NaN; short indices on 12 days, '
+                'a quarter of the cases with long operands (64/65/100/128/300 stamps, few distinct values) next to short ones; policies spelled ij/oj/inner/outer; '
+                'operands must be unchanged after the call. ')
+
 SUBS = [
     Sub('arith', lambda tier: _arith_case(), run_arith, quick=2400, thorough=20000,
-        rule='add_/sub_/mul_/div_ on 2-4 operands (float/int Series, 2-3 column frames over {a,b,c,d}, scalars incl. 0 and NaN) on a 12-day axis; '
-             'index policies ij/oj x column policies ij/oj; forms op(a,b), op([..]), op([..],[..]); oracle: per-timestamp dictionary model folded left to right, '
-             'neutral element for one-sided columns, zero divisor -> NaN and no inf, op(a,b)==op(b,a) for add_/mul_. '
+        rule='add_/sub_/mul_/div_ on 2-4 operands; index policies x column policies; forms op(a,b), op([..]), op([..],[..]); ' + _COMMON_RULE +
+             'oracle: per-timestamp dictionary model folded left to right, neutral element for one-sided columns, zero divisor -> NaN and no inf, op(a,b)==op(b,a) for add_/mul_. '
              'non-trivial = partially overlapping indices with a NaN or 0 inside the overlap, or frames with differing column sets',
         floor=0.2, class_floors={'neutral_element_used': 0.04, 'zero_divisor_cell': 0.05, 'commutativity_checked': 0.1, 'partial_overlap': 0.2,
-                                 'series_with_frame': 0.1, 'scalar': 0.15, 'empty_operand': 0.05, 'disjoint_indices': 0.05}),
+                                 'series_with_frame': 0.1, 'scalar': 0.15, 'empty_operand': 0.04, 'disjoint_indices': 0.05,
+                                 'long': 0.06, 'long_with_short': 0.02, 'long_with_long': 0.02, 'fingerprint_indices': 0.03, 'prefix_column_names': 0.05,
+                                 'same_columns_other_order': 0.015, 'falsy_scalar': 0.03, 'inexact_values': 0.08, 'spelled_out_policy': 0.2,
+                                 'empty_in_the_middle': 0.004}),
     Sub('cmp_pow', lambda tier: _cmp_case(), run_cmp_pow, quick=1200, thorough=10000,
-        rule='pow_ (exponents 0..3, 0.5, NaN) and gt_/ge_/lt_/le_ on two operands, same operand universe and policies; oracle: the same alignment model with '
+        rule='pow_ (exponents 0..3, 0.5, NaN) and gt_/ge_/lt_/le_ on two operands; ' + _COMMON_RULE + 'oracle: the same alignment model with '
              'math.pow / Python comparisons; cells of one-sided columns under columns=oj are not judged. non-trivial as in arith',
-        floor=0.2, class_floors={'both_outcomes': 0.15, 'partial_overlap': 0.2, 'op=pow_': 0.2}),
+        floor=0.2, class_floors={'both_outcomes': 0.15, 'partial_overlap': 0.2, 'op=pow_': 0.2, 'long': 0.06, 'fingerprint_indices': 0.01, 'spelled_out_policy': 0.2}),
     Sub('minmax', lambda tier: _minmax_case(), run_minmax, quick=1200, thorough=10000,
-        rule='min_/max_ on 2-4 operands (Series, scalars, frames with one common column set), forms (a,b), ([..]), ([..],[..]); oracle: NaN-propagating '
+        rule='min_/max_ on 2-4 operands (frames of one case have one column set), forms (a,b), ([..]), ([..],[..]); ' + _COMMON_RULE + 'oracle: NaN-propagating '
              'min/max on the aligned cells. non-trivial = partially overlapping indices with a NaN or 0 inside the overlap',
-        floor=0.2, class_floors={'partial_overlap': 0.25, 'series_with_frame': 0.1}),
+        floor=0.2, class_floors={'partial_overlap': 0.25, 'series_with_frame': 0.1, 'long': 0.06, 'fingerprint_indices': 0.03, 'same_columns_other_order': 0.05,
+                                 'spelled_out_policy': 0.2}),
     Sub('agg', lambda tier: _agg_case(), run_agg, quick=1200, thorough=10000,
-        rule='df_sum/df_mean/df_count on 2-4 Series or 2-4 multi-column frames (column sets may differ), default policies; oracle: union index, '
+        rule='df_sum/df_mean/df_count on 2-4 Series or 2-4 multi-column frames (column sets may differ), default policies; ' + _COMMON_RULE + 'oracle: union index, '
              'sum/mean over the non-NaN operands, count of them, NaN (count 0) where none. non-trivial as in arith',
-        floor=0.3, class_floors={'cell_without_data': 0.3, 'cell_with_data': 0.5, 'differing_columns': 0.1}),
+        floor=0.3, class_floors={'cell_without_data': 0.3, 'cell_with_data': 0.5, 'differing_columns': 0.1, 'long': 0.06, 'fingerprint_indices': 0.05}),
 ]
